@@ -221,10 +221,14 @@ class CtxSteps:
         self.body = fn_body(fn)
         self.fl = Flow(fn, self.body)
         self.reassigned = set()
+        self.assigns = {}
+        self.assign_nodes = {}
         for a in nodes(self.body, "Assign"):
             l = peel(a["l"])
             if l.get("k") == "Path" and l.get("res") == "Local":
                 self.reassigned.add(l["hid"])
+                self.assigns.setdefault(l["hid"], []).append(a["r"])
+                self.assign_nodes.setdefault(l["hid"], []).append(a)
 
     def steps(self, e, depth=0):
         e = peel_clone(e)
@@ -303,22 +307,49 @@ NODE_SPAN_EXEMPT = {
 }
 
 
-def _binding_sites(cs, e, depth=0, out=None, ancestors=True):
+def _pos(n):
+    """(line, col) of a node from its `sp` (file:line:col), or None"""
+    sp = n.get("sp") if isinstance(n, dict) else None
+    if not sp:
+        return None
+    try:
+        _f, l, c = sp.rsplit(":", 2)
+        return (int(l), int(c))
+    except ValueError:
+        return None
+
+
+def _binding_sites(cs, e, depth=0, out=None, ancestors=True, visited=None):
     """ids of the destructuring sites (`(tok, span, ctx) = c.eat()`, `(ctx, node) = parse(c)?`) through which the value of
-    expression e was obtained, following plain lets"""
+    expression e was obtained, following plain lets and - for a `let mut` - the assignments that textually precede the
+    read (a later assignment in a loop body belongs to the previous iteration, i.e. to another node)"""
     if out is None:
         out = {}
-    if depth > 10:
+    if visited is None:
+        visited = set()
+    if depth > 12:
         return out
     for x in nodes(e, "Path"):
         if x.get("res") != "Local":
             continue
+        if not ancestors and CTX in (x.get("ty") or ""):
+            # children are the parsed values, not the context they were parsed from
+            continue
+        key = (x["hid"], x.get("sp"))
+        if key in visited:
+            continue
+        visited.add(key)
         o = cs.fl.origin.get(x["hid"])
+        here = _pos(x)
+        for a in cs.assign_nodes.get(x["hid"], []):
+            ap = _pos(a)
+            if here is not None and ap is not None and ap < here:
+                _binding_sites(cs, a["r"], depth + 1, out, ancestors, visited)
         if o is None or o.get("src") is None:
             continue
         if o["path"] == ():
             if o["kind"] == "let":
-                _binding_sites(cs, o["src"], depth + 1, out, ancestors)
+                _binding_sites(cs, o["src"], depth + 1, out, ancestors, visited)
             continue
         src = peel_clone(o["src"])
         if src.get("k") == "Try":
@@ -327,12 +358,12 @@ def _binding_sites(cs, e, depth=0, out=None, ancestors=True):
             out[id(o["node"])] = pp(src)[:50]
             # the context the call started from may itself be a post-context
             if ancestors:
-                _binding_sites(cs, src.get("recv") if src.get("k") == "MethodCall" else (src.get("args") or [None])[0], depth + 1, out)
+                _binding_sites(cs, src.get("recv") if src.get("k") == "MethodCall" else (src.get("args") or [None])[0], depth + 1, out, ancestors, visited)
         else:
             idx = [el[1] for el in o["path"] if el[0] == "tuple"]
             for t in _tails(src):
                 if t.get("k") == "Tup" and idx and idx[0] < len(t["es"]):
-                    _binding_sites(cs, t["es"][idx[0]], depth + 1, out, ancestors)
+                    _binding_sites(cs, t["es"][idx[0]], depth + 1, out, ancestors, visited)
     return out
 
 
